@@ -18,10 +18,94 @@ import (
 
 type (
 	WaitGroup = sync.WaitGroup
-	Map       = sync.Map
 	Cond      = sync.Cond
 	Locker    = sync.Locker
 )
+
+// Map replaces sync.Map: the real map with a decision point before and after every operation, so
+// that the scheduler can run another task between, say, a LoadOrStore that publishes an entry and
+// the code that completes it.
+type Map struct {
+	real sync.Map
+}
+
+const siteMap = -2
+
+func (m *Map) Load(key any) (any, bool) {
+	simrt.Yield(siteMap)
+	v, ok := m.real.Load(key)
+	simrt.Yield(siteMap)
+	return v, ok
+}
+
+func (m *Map) Store(key, value any) {
+	simrt.Yield(siteMap)
+	m.real.Store(key, value)
+	simrt.Yield(siteMap)
+}
+
+func (m *Map) LoadOrStore(key, value any) (any, bool) {
+	simrt.Yield(siteMap)
+	v, ok := m.real.LoadOrStore(key, value)
+	simrt.Yield(siteMap)
+	return v, ok
+}
+
+func (m *Map) LoadAndDelete(key any) (any, bool) {
+	simrt.Yield(siteMap)
+	v, ok := m.real.LoadAndDelete(key)
+	simrt.Yield(siteMap)
+	return v, ok
+}
+
+func (m *Map) Delete(key any) {
+	simrt.Yield(siteMap)
+	m.real.Delete(key)
+	simrt.Yield(siteMap)
+}
+
+func (m *Map) Swap(key, value any) (any, bool) {
+	simrt.Yield(siteMap)
+	v, ok := m.real.Swap(key, value)
+	simrt.Yield(siteMap)
+	return v, ok
+}
+
+func (m *Map) CompareAndSwap(key, old, new any) bool {
+	simrt.Yield(siteMap)
+	ok := m.real.CompareAndSwap(key, old, new)
+	simrt.Yield(siteMap)
+	return ok
+}
+
+func (m *Map) CompareAndDelete(key, old any) bool {
+	simrt.Yield(siteMap)
+	ok := m.real.CompareAndDelete(key, old)
+	simrt.Yield(siteMap)
+	return ok
+}
+
+func (m *Map) Range(f func(key, value any) bool) {
+	simrt.Yield(siteMap)
+	// snapshot, then visit in a seeded order (sync.Map.Range order is unspecified)
+	var ks, vs []any
+	m.real.Range(func(k, v any) bool { ks, vs = append(ks, k), append(vs, v); return true })
+	for _, i := range simrt.OrderAny(ks) {
+		if v, ok := m.real.Load(ks[i]); ok {
+			if !f(ks[i], v) {
+				break
+			}
+		}
+	}
+	_ = vs
+	simrt.Yield(siteMap)
+}
+
+func (m *Map) Clear() {
+	simrt.Yield(siteMap)
+	m.real.Clear()
+	simrt.Yield(siteMap)
+}
 
 func NewCond(l Locker) *Cond { return sync.NewCond(l) }
 
